@@ -52,6 +52,10 @@ CHECKS = {
    technique="stateless deviation-bounded DFS over source/destination answer orders and faults, source growth, cancellation, mastership loss and restarts, on the real migration Controller with a gated HTTP source log and a gated reference pre-ordered backend under virtual time",
    text="Scenario = source size x destination state {empty, honest prefix 1/2, full, ahead, 2-entry prefix of a fork} x batch 1-3 x fetchers/submitters 1-2 x channel size x identity function x one-shot / continuous with growth x Run / RunWhenMaster with a scripted election x restart on the left-over destination; per scenario every choice vector within the deviation bound (quick 2, thorough 3) over which pending source request or destination RPC is answered next and how (full, each short read, 429, 500, network error, bad STH signature, wrong consistency proof, lagging destination root, ResourceExhausted, Internal, DeadlineExceeded). Oracle on the recorded AddSequencedLeaves stream and the final destination: index i holds exactly source i with the configured identity hash; nothing at or beyond the largest validly signed STH served in the pass; no write past a non-empty destination root without an honest consistency proof (none at all on a forked destination); ResourceExhausted retried with the identical request; other destination errors end the pass; successful runs leave no gap; continuous mode catches up after growth.",
    note="The real client.LogClient verifies the STH signatures with the source key. The destination is ref/reflog in pre-ordered mode (first writer wins). Back-off jitter is not owned; retries differing only by jitter are presented together. Interleavings at the granularity of HTTP round trips / RPCs."),
+ "C11": dict(level="exploration", engine="enum", design="5/C11",
+   technique="bounded-exhaustive template product plus per-TLV-node mutation enumeration through all parser entry points, differential against crypto/x509 of the toolchain, with a coherence-class oracle",
+   text="(a) 40960 (thorough 1.97 M) certificate templates = full product of 12 on/off features x 5 basic-constraints shapes x 2 independent conforming encoders, plus rich der-only certificates, CRLs, keys and CSRs, must parse without error and agree field by field with crypto/x509, raw fields being exact sub-slices of the input; (b) every seed x every TLV node x a 44-kind structure-preserving mutation catalogue (thorough: lax-kind second mutation) through all 13 entry points: no panic, no hang, (object, error) in {(obj,nil),(obj,non-fatal),(nil,fatal)} with no nil elements, returned objects survive the package's own methods; (c) ParseCertificates on concatenations gives the per-certificate outcome of ParseCertificate.",
+   note="crypto/x509 + encoding/asn1 of go1.23.5 (GOTOOLCHAIN=local) are the field-value reference. Termination is observed as 'returns within 60 s'. Exact raw offsets are demanded only where TLV framing is unambiguous."),
 }
 PENDING_REASON = "check not built yet in this round (design in DESIGN.md section 5); not claimed until its machinery exists and passes on the unchanged tree"
 checks, na = [], []
